@@ -126,6 +126,8 @@ dtz_enrichz(struct dt_dt_s d, zif_t zone)
 		}
 #endif
 		if (zdiff > 0) {
+			/* the flag may be left over from another zone */
+			d.neg = 0;
 			d.zdiff = (uint16_t)(zdiff / ZDIFF_RES);
 		} else if (zdiff < 0) {
 			d.neg = 1;
